@@ -131,19 +131,21 @@ _REF = {}
 _MPE_ARGS = {}
 
 
-def mpe_args(kind, name):
+def mpe_args(kind, name, version=0):
     """Extraction arguments. For pLSCF the order/frequency are chosen from the clean reference run (a parameter choice,
     not an oracle): the highest model order that holds a retained pole, and that pole's frequency."""
-    return _MPE_ARGS.get((kind, name)) or base_args(kind, name)
+    return _MPE_ARGS.get((kind, name, version)) or base_args(kind, name)
 
 
 def _reference_job(item):
     """Runs in a one-shot child process in which nothing of the library has been executed before."""
-    kind, name, seed = item
+    kind, name, seed, version = item
     out = []
     chosen = None
     for _ in range(2):
         ss, _u = build_setup(kind, seed)
+        if version:
+            ss.detrend_data()          # data version 1: the records after the 'prep' event
         args = base_args(kind, name)
         a = make(kind, name, {})
         ss.add_algorithms(a)
@@ -175,7 +177,7 @@ def compute_references(plan, seed):
 
     from mc.core import CheckError
 
-    todo = sorted({(kind, n, seed) for kind, subset in plan for n in subset})
+    todo = sorted({(kind, n, seed, v) for kind, subset in plan for n in subset for v in (0, 1)})
     with mp.get_context("fork").Pool(min(16, len(todo)), maxtasksperchild=1) as pool:
         res = pool.map(_reference_job, todo, chunksize=1)
     for k, r in zip(todo, res):
@@ -183,18 +185,18 @@ def compute_references(plan, seed):
             raise CheckError(f"pLSCF reference run for {k} holds no retained pole at any order; the harness cannot build an extraction case")
         _REF[k] = r[1] if r[0] == "ok" else ("NONDET", r[1])
         if r[2]:
-            _MPE_ARGS[(k[0], k[1])] = r[2]
+            _MPE_ARGS[(k[0], k[1], k[3])] = r[2]
 
 
-def reference(kind, name, seed):
-    return _REF[(kind, name, seed)]
+def reference(kind, name, seed, version=0):
+    return _REF[(kind, name, seed, version)]
 
 
 def events_for(kind, subset):
     nop = "NOPAR"
     ev = [("add", n) for n in subset] + [("add", nop), ("add2", subset[1], subset[2])]
     ev += [("run", n) for n in subset] + [("run", nop), ("runall",)]
-    ev += [("mpe", n) for n in subset] + [("saveload",), ("decoy",)]
+    ev += [("mpe", n) for n in subset] + [("saveload",), ("decoy",), ("prep",)]
     return ev
 
 
@@ -214,8 +216,10 @@ def run_history(kind, subset, events, hist, seed, scratch, judge_all=False):
     # model: name -> ('added'|'ran'|'mpe'|'reran'), insertion-ordered; NOPAR -> 'added'
     model = {}
     nop_cls = subset[0]
-    refs = {n: reference(kind, n, seed) for n in subset}
-    for n, r in refs.items():
+    version = 0                       # data version of the setup: 0 = as constructed, 1 = after the 'prep' event (detrend_data)
+    bound = {}                        # name -> data version bound when the algorithm was added
+    refs = {n: reference(kind, n, seed, 0) for n in subset}
+    for n, r in list(refs.items()) + [(n, reference(kind, n, seed, 1)) for n in subset]:
         if r[0] == "NONDET":
             t.violation(f"nondeterministic:{n}", f"{n} run twice alone on identical fresh setups gives different results/parameters", case)
             return t, None
@@ -226,7 +230,12 @@ def run_history(kind, subset, events, hist, seed, scratch, judge_all=False):
         before = canon.digest({"o": ss.__dict__}) if judge else None
         exc = None
         try:
-            if ev[0] == "add":
+            if ev[0] == "prep":
+                if version >= 1:
+                    stop = True        # one preprocessing step per history (every further one would need its own references)
+                    break
+                ss.detrend_data()
+            elif ev[0] == "add":
                 a = noparam(kind, nop_cls, "NOPAR") if ev[1] == "NOPAR" else make(kind, ev[1], shared)
                 ss.add_algorithms(a)
             elif ev[0] == "add2":
@@ -239,7 +248,7 @@ def run_history(kind, subset, events, hist, seed, scratch, judge_all=False):
             elif ev[0] == "runall":
                 ss.run_all()
             elif ev[0] == "mpe":
-                ss.mpe(ev[1], **(mpe_args(kind, ev[1]) if ev[1] != "NOPAR" else dict(sel_freq=[5.0])))
+                ss.mpe(ev[1], **(mpe_args(kind, ev[1], bound.get(ev[1], 0)) if ev[1] != "NOPAR" else dict(sel_freq=[5.0])))
             elif ev[0] == "decoy":
                 run_decoy(kind, subset, seed)
             elif ev[0] == "saveload":
@@ -260,14 +269,20 @@ def run_history(kind, subset, events, hist, seed, scratch, judge_all=False):
         # ---- model step
         expect_exc = False
         flexible = False
-        if ev[0] == "add":
-            if ev[1] in model:
-                model[ev[1]] = "added"
-            else:
-                model[ev[1]] = "added"
-        elif ev[0] == "add2":
+        if ev[0] == "prep":
+            if exc is None:
+                version = 1
+                d0 = data_digest(ss)      # the setup's own data changes legitimately; algorithms added before keep the old binding
+        elif ev[0] == "add":
             model[ev[1]] = "added"
-            model[ev[2]] = "added"
+            bound[ev[1]] = version
+            if ev[1] != "NOPAR":
+                refs[ev[1]] = reference(kind, ev[1], seed, version)
+        elif ev[0] == "add2":
+            for n_ in (ev[1], ev[2]):
+                model[n_] = "added"
+                bound[n_] = version
+                refs[n_] = reference(kind, n_, seed, version)
         elif ev[0] == "run":
             if ev[1] not in model or ev[1] == "NOPAR":
                 expect_exc = True
@@ -536,12 +551,12 @@ def explore(ctx):
             plan += [("single", ("SSIdat@S", "SSIcov@S", "EFDD")), ("single", ("EFDD@S", "FSDD@S", "SSIcov")),
                      ("preger", ("SSIdat_MS@S", "SSIcov_MS@S", "FDD_MS"))]
             plan += [("preger", s) for s in itertools.combinations(ms_menu, 3)]
-            depth, ud = 8, 3
+            depth, ud = 7, 3
         else:
             plan = [("single", ("FDD", "SSIcov", "pLSCF")), ("single", ("EFDD", "SSIdat", "FSDD")),
                     ("single", ("SSIdat@S", "SSIcov@S", "EFDD")),
                     ("preger", ("FDD_MS", "SSIcov_MS", "pLSCF_MS")), ("preger", ("EFDD_MS", "SSIdat_MS", "FDD_MS"))]
-            depth, ud = 6, 2
+            depth, ud = 5, 2
         ctx.bounds = {"plan": [[k, list(s)] for k, s in plan], "merged_bfs_depth": depth, "unmerged_depth": ud,
                       "events_per_subset": [list(e) for e in events_for(*plan[0])], "samples": NS, "fs": FS}
         compute_references(plan, ctx.seed)
@@ -561,7 +576,7 @@ def explore(ctx):
     finally:
         shutil.rmtree(scratch, ignore_errors=True)
     ctx.require("ok:add", "ok:run", "ok:runall", "ok:mpe", "saveload-equal", "rejected:run:NOPAR", "rejected:run:absent",
-                "rejected:mpe:ok", "rejected:runall:ok", "ok:decoy", "ok:add2", "poser-accepted", "poser-rejected")
+                "rejected:mpe:ok", "rejected:runall:ok", "ok:decoy", "ok:add2", "ok:prep", "poser-accepted", "poser-rejected")
 
 
 def replay(case):
